@@ -56,7 +56,7 @@ TextStateOf(tt) ==
 InitSm(fb, strict, tt0, last0, cdata0) ==
   [st |-> TextStateOf(tt0), tt |-> tt0, toks |-> <<>>, ts |-> 0, tok |-> NoTok, at |-> <<0, 0, 0, 0>>,
    last |-> last0, tmp |-> 0, cdataOK |-> cdata0, tb |-> TSInit(strict), fb |-> fb, err |-> "",
-   re |-> FALSE, skip |-> 0, done |-> FALSE, ret |-> ""]
+   re |-> FALSE, skip |-> 0, done |-> FALSE, ret |-> "", wit |-> <<>>, wi |-> 1]
 
 \* flush the pending character run [ts, upto) as one text token
 Flush(sm, upto) ==
@@ -81,6 +81,10 @@ EmitTag(sm, bytes, e) ==
              THEN (IF tok.k = "st"
                    THEN TSStart(sm.tb, nm, [i \in 1..Len(tok.attrs) |-> <<AttrName(bytes, tok.attrs[i]), AttrVal(bytes, tok.attrs[i])>>], tok.sc)
                    ELSE TSEnd(sm.tb, nm))
+             ELSE IF sm.fb = "wit"
+             \* witnessed feedback: what a real tree builder answered after its i-th tag token
+             THEN (IF sm.wi <= Len(sm.wit) THEN [tb |-> sm.tb, tt |-> sm.wit[sm.wi].tt, cdata |-> sm.wit[sm.wi].cdata, err |-> FALSE]
+                   ELSE [tb |-> sm.tb, tt |-> "", cdata |-> sm.cdataOK, err |-> FALSE])
              ELSE [tb |-> sm.tb, tt |-> "", cdata |-> sm.cdataOK, err |-> FALSE]
       tt2 == IF r.tt # "" THEN r.tt ELSE "Data"
       \* namespace of the element a start tag creates: svg / math open their namespace; an integration point
@@ -95,7 +99,7 @@ EmitTag(sm, bytes, e) ==
       tok2 == [tok EXCEPT !.ns = ens, !.ns1 = IF tok.k = "st" THEN after ELSE ""]
   IN [f EXCEPT !.toks = Append(@, tok2), !.ts = e, !.tok = NoTok,
                !.last = IF tok.k = "st" THEN nm ELSE @,
-               !.tb = r.tb, !.cdataOK = r.cdata, !.tt = tt2, !.st = TextStateOf(tt2),
+               !.tb = r.tb, !.cdataOK = r.cdata, !.tt = tt2, !.st = TextStateOf(tt2), !.wi = @ + 1,
                !.err = IF r.err THEN "ambiguity" ELSE @, !.done = r.err]
 
 EmitTok(sm, e, next) ==   \* comment / doctype
@@ -407,6 +411,8 @@ RunPrefix(sm, bytes, i) ==
 AfterPrefix(bytes, fb, strict) == RunPrefix(InitSm(fb, strict, "Data", <<>>, FALSE), bytes, 1)
 
 Tokenize(bytes, fb, strict) == Run(InitSm(fb, strict, "Data", <<>>, FALSE), bytes, 1)
+\* the WHATWG tokenizer driven by a witnessed tree builder (L0 for C03)
+TokenizeWit(bytes, wit) == Run([InitSm("wit", FALSE, "Data", <<>>, FALSE) EXCEPT !.wit = wit], bytes, 1)
 TokenizeFrom(bytes, fb, strict, tt0, last0, cdata0) == Run(InitSm(fb, strict, tt0, last0, cdata0), bytes, 1)
 
 \* everything from the first unfinished construct to the end (what a streaming parser must hold back
